@@ -11,7 +11,7 @@
    database model's own step has the model's new rows as its target, so the completed script leaves
    exactly the database's new logical contents on disk (for inserts: stored field values not NaN). *)
 From Coq Require Import List ZArith NArith Bool.
-From TF Require Import Base Query Index DB Codec Csv Text IO proofs.CodecP proofs.CsvP proofs.TextP proofs.IOP proofs.PlanP.
+From TF Require Import Base Query Index DB Codec Csv Text IO proofs.CodecP proofs.CsvP proofs.TextP proofs.IOP proofs.PlanP proofs.HistoryP.
 Import ListNotations.
 
 Theorem C04_disk_is_target : forall old p,
@@ -41,7 +41,14 @@ Proof. exact file_append_roundtrip. Qed.
 Theorem C04_csv_write_app : forall D r1 r2, csv_write D (r1 ++ r2) = csv_write D r1 ++ csv_write D r2.
 Proof. exact csv_write_app. Qed.
 
+(* a whole history: after its last operation the file holds exactly the model's rows and nothing is buffered or left behind *)
+Theorem C04_history_leaves_contents : forall E C norm ops s, insert_ok E C norm s ops ->
+  let w := run_steps (world_of (st_rows s)) (history_script E C norm s ops) in
+  w_disk w = st_rows (state_after E C norm s ops) /\ clean w.
+Proof. exact history_file. Qed.
+
 Print Assumptions C04_disk_is_target.
+Print Assumptions C04_history_leaves_contents.
 Print Assumptions C04_operation_leaves_new_contents.
 Print Assumptions C04_file_decodes.
 Print Assumptions C04_append_decodes.
